@@ -44,9 +44,9 @@ fn variants_named(f: &FnInfo, en: &[String]) -> BTreeSet<String> {
 /// C09.scope: the name under which named numbers / enumerals in a constraint are looked up is the governing type.
 /// For a constrained type reference `Level ::= Zone (low..high)` the governing type is `Zone`, so the call that links the
 /// reference's constraints must be handed the *referenced* identifier, not the enclosing assignment's name.
-fn scope(m: &Model, ctx: &mut Ctx) {
+pub fn scope(m: &Model, ctx: &mut Ctx, rule: &str) {
     let Some(f) = m.fns.iter().find(|f| f.name == "link_constraint_reference" && f.self_ty.as_deref() == Some("ASN1Type")) else {
-        ctx.fail_closed("C09.scope", "anchor not found: ASN1Type::link_constraint_reference");
+        ctx.fail_closed(rule, "anchor not found: ASN1Type::link_constraint_reference");
         return;
     };
     ctx.func(&f.key);
@@ -56,7 +56,7 @@ fn scope(m: &Model, ctx: &mut Ctx) {
         _ => None,
     }).next().unwrap_or_default();
     let Some(top) = model::matches_in(&f.block).into_iter().find(|mt| tok(&mt.expr) == "self") else {
-        ctx.fail_closed("C09.scope", "link_constraint_reference has no `match self`");
+        ctx.fail_closed(rule, "link_constraint_reference has no `match self`");
         return;
     };
     let mut elsewhere_seen = 0;
@@ -105,15 +105,15 @@ fn scope(m: &Model, ctx: &mut Ctx) {
         for (a, line) in &l.calls {
             calls_seen += 1;
             let r = resolve(a);
-            ctx.oblige("C09.scope", &format!("{}:{}", pat, a), true);
+            ctx.oblige(rule, &format!("{}:{}", pat, a), true);
             if is_elsewhere {
                 elsewhere_seen += 1;
                 if r != format!("{}.identifier", binding) {
-                    ctx.violate("C09.scope", "reference-constraints-linked-under-enclosing-name", &f.file, *line,
+                    ctx.violate(rule, "reference-constraints-linked-under-enclosing-name", &f.file, *line,
                         &format!("the constraints of a constrained type reference are linked under `{}` (resolves to `{}`) instead of the referenced type `{}.identifier`: a named number in `Level ::= Zone (low..high)` is then not found in Zone first but in whichever type defining `low` sorts first", a, r, binding));
                 }
             } else if r != encl && !r.contains(".identifier") && !r.contains(".name") {
-                ctx.violate("C09.scope", &format!("unrecognised-scope:{}", pat), &f.file, *line,
+                ctx.violate(rule, &format!("unrecognised-scope:{}", pat), &f.file, *line,
                     &format!("arm `{}` links constraints under `{}` (resolves to `{}`), which is neither the enclosing assignment's name `{}` nor a name taken from the matched type", pat, a, r, encl));
             }
         }
@@ -125,18 +125,11 @@ fn scope(m: &Model, ctx: &mut Ctx) {
     match m.find_fn(None, "find_tld_or_enum_value_by_name", None) {
         Ok(g) => {
             ctx.func(&g.key);
-            let tname = g.sig.inputs.iter().filter_map(|a| match a {
+            let _tname = g.sig.inputs.iter().filter_map(|a| match a {
                 syn::FnArg::Typed(t) => Some(tok(&t.pat)),
                 _ => None,
             }).next().unwrap_or_default();
             let calls: Vec<String> = model::method_calls_in(&g.block).iter().filter(|mc| mc.method == "get_distinguished_or_enum_value").map(|mc| mc.args.first().map(|a| tok(a)).unwrap_or_default()).collect();
-            ctx.oblige("C09.scope", "typed-lookup-first", true);
-            let typed = format!("Some({})", tname);
-            match calls.first() {
-                Some(c) if *c == typed => {}
-                other => ctx.violate("C09.scope", "typed-lookup-first", &g.file, g.line,
-                    &format!("find_tld_or_enum_value_by_name must first search the governing type (`get_distinguished_or_enum_value({}, ..)`), found first call with `{:?}`", typed, other)),
-            }
             // the lookup evaluated on a map in which an unrelated type that sorts first defines the same identifier: the
             // governing type's own number wins, wherever the governing type sorts
             {
@@ -144,26 +137,50 @@ fn scope(m: &Model, ctx: &mut Ctx) {
                 use std::collections::BTreeMap as Map;
                 let consts = const_resolver(m);
                 let params: Vec<String> = g.sig.inputs.iter().filter_map(|a| match a { syn::FnArg::Typed(t) => Some(tok(&t.pat)), _ => None }).collect();
-                for (what, order, governing, want) in [
-                    ("unrelated type sorts first", vec![("Alarm", 9i128), ("Colour", 1)], "Colour", 1i128),
-                    ("governing type sorts first", vec![("Colour", 1), ("Signal", 9)], "Colour", 1),
-                    ("only the governing type defines it", vec![("Colour", 1), ("Other", -1)], "Colour", 1),
-                ] {
-                    ctx.oblige("C09.scope", &format!("lookup:{}", what), true);
-                    let order2: Vec<(String, i128)> = order.iter().map(|(n, v)| (n.to_string(), *v)).collect();
+                let scenarios: Vec<(&str, Vec<(&str, i128, Option<&str>)>, &str, i128)> = vec![
+                    ("unrelated type sorts first", vec![("Alarm", 9i128, None), ("Colour", 1, None)], "Colour", 1i128),
+                    ("governing type sorts first", vec![("Colour", 1, None), ("Signal", 9, None)], "Colour", 1),
+                    ("only the governing type defines it", vec![("Colour", 1, None), ("Other", -1, None)], "Colour", 1),
+                    ("governing type is a reference to the defining type", vec![("Alarm", 9, None), ("Colour", 1, None), ("Shade", -1, Some("Colour"))], "Shade", 1),
+                    ("governing type is a reference to a reference", vec![("Alarm", 9, None), ("Colour", 1, None), ("Shade", -1, Some("Colour")), ("Tint", -1, Some("Shade"))], "Tint", 1),
+                ];
+                for (what, order, governing, want) in scenarios {
+                    ctx.oblige(rule, &format!("lookup:{}", what), true);
+                    let order2: Vec<(String, i128, Option<String>)> = order.iter().map(|(n, v, a)| (n.to_string(), *v, a.map(|x| x.to_string()))).collect();
+                    // a definition as the linker sees it: ToplevelDefinition::Type(ToplevelTypeDefinition { name, ty, .. })
+                    fn tld_val(n: &str, v: i128, alias: &Option<String>) -> Val {
+                        let mut f = Map::new();
+                        f.insert("name".to_string(), Val::Str(n.to_string()));
+                        f.insert("number".to_string(), Val::int(v));
+                        let ty = match alias {
+                            Some(a) => {
+                                let mut d = Map::new();
+                                d.insert("identifier".to_string(), Val::Str(a.clone()));
+                                Val::Ctor("ElsewhereDeclaredType".into(), vec![Val::Ctor("DeclarationElsewhere".into(), vec![], d)], Map::new())
+                            }
+                            None => Val::Ctor("Integer".into(), vec![Val::Opaque("integer".into())], Map::new()),
+                        };
+                        f.insert("ty".to_string(), ty);
+                        Val::Ctor("Type".into(), vec![Val::Ctor("ToplevelTypeDefinition".into(), vec![], f)], Map::new())
+                    }
                     let hook = move |_: &Evaluator, name: &str, a: &[Val]| -> Option<Result<Val, String>> {
                         match (name, a.first()) {
-                            (".get", Some(Val::Opaque(s))) if s == "tlds" => Some(Ok(Val::none())),
+                            (".get", Some(Val::Opaque(s))) if s == "tlds" => {
+                                let key = match a.get(1) { Some(Val::Str(k)) => k.clone(), _ => return Some(Err("tlds.get with a key that is not a name".into())) };
+                                Some(Ok(match order2.iter().find(|(n, _, _)| *n == key) {
+                                    Some((n, v, al)) => Val::some(tld_val(n, *v, al)),
+                                    None => Val::none(),
+                                }))
+                            }
+                            (".len", Some(Val::Opaque(s))) if s == "tlds" => Some(Ok(Val::int(order2.len() as i128))),
                             (".iter", Some(Val::Opaque(s))) | (".values", Some(Val::Opaque(s))) if s == "tlds" => {
-                                Some(Ok(Val::List(order2.iter().map(|(n, v)| {
-                                    let mut f = Map::new();
-                                    f.insert("name".to_string(), Val::Str(n.clone()));
-                                    f.insert("number".to_string(), Val::int(*v));
-                                    let t = Val::Ctor("TLD".into(), vec![], f);
+                                Some(Ok(Val::List(order2.iter().map(|(n, v, al)| {
+                                    let t = tld_val(n, *v, al);
                                     if name == ".iter" { Val::Tuple(vec![Val::Str(n.clone()), t]) } else { t }
                                 }).collect())))
                             }
-                            (".get_distinguished_or_enum_value", Some(Val::Ctor(_, _, f))) => {
+                            (".get_distinguished_or_enum_value", Some(Val::Ctor(_, inner, _))) => {
+                                let f = match inner.first() { Some(Val::Ctor(_, _, f)) => f.clone(), _ => return Some(Err("get_distinguished_or_enum_value on an unknown definition".into())) };
                                 let tname = match f.get("name") { Some(Val::Str(n)) => n.clone(), _ => String::new() };
                                 let num = match f.get("number") { Some(Val::Int { v, .. }) => *v, _ => 0 };
                                 let typed = match a.get(1) {
@@ -187,22 +204,22 @@ fn scope(m: &Model, ctx: &mut Ctx) {
                         Ok(Val::Ctor(s, p, _)) if s == "Some" => {
                             let got = match p.first() { Some(Val::Ctor(_, q, _)) => match q.first() { Some(Val::Int { v, .. }) => Some(*v), _ => None }, _ => None };
                             if got != Some(want) {
-                                ctx.violate("C09.scope", "governing-type-wins", &g.file, g.line,
+                                ctx.violate(rule, "governing-type-wins", &g.file, g.line,
                                     &format!("`red` in a constraint on `{}` ({}; definitions {:?}) resolves to {:?}; it is the named number of the governing type: {}", governing, what, order, got, want));
                             }
                         }
-                        Ok(o) => ctx.violate("C09.scope", "governing-type-wins", &g.file, g.line, &format!("`red` in a constraint on `{}` ({}) resolves to {}", governing, what, o.show())),
-                        Err(e) => ctx.fail_closed("C09.scope", &format!("[lookup {}]: {}", what, e)),
+                        Ok(o) => ctx.violate(rule, "governing-type-wins", &g.file, g.line, &format!("`red` in a constraint on `{}` ({}) resolves to {}", governing, what, o.show())),
+                        Err(e) => ctx.fail_closed(rule, &format!("[lookup {}]: {}", what, e)),
                     }
                 }
             }
-            ctx.oblige("C09.scope", "untyped-fallback", true);
+            ctx.oblige(rule, "untyped-fallback", true);
             if calls.iter().any(|c| c == "None") {
-                ctx.violate("C09.scope", "untyped-fallback", &g.file, g.line,
+                ctx.violate(rule, "untyped-fallback", &g.file, g.line,
                     "a named number that is not found under the given type name is looked up in *every* type, in map (alphabetical) order, and the first hit wins: for an inline member type the given name is the enclosing assignment, so the member's own named numbers lose against any type that sorts earlier and defines the same identifier");
             }
         }
-        Err(e) => ctx.fail_closed("C09.scope", &format!("anchor not found: {}", e)),
+        Err(e) => ctx.fail_closed(rule, &format!("anchor not found: {}", e)),
     }
 }
 
@@ -432,7 +449,7 @@ Not applicable: the equivalence sugared = expanded itself, independence from the
         ctx.sample(json!({"pair": [d, r], "detector_variants": dv, "rewriter_variants": rv}));
     }
 
-    scope(m, ctx);
+    scope(m, ctx, "C09.scope");
     order(m, ctx, "C09.order");
     params(m, ctx);
     constraint_pairs(m, ctx, "C09.sym");
